@@ -1,4 +1,5 @@
-(* Theorems about the SmtLibSolver protocol model, for every API history. *)
+(* Theorems about the SmtLibSolver protocol model (wrapper after the C17 fixes a-d), for every
+   API history. *)
 From Coq Require Import List Bool Arith Lia.
 From PySMT.models Require Import SmtLibSolver.
 Import ListNotations.
@@ -33,40 +34,33 @@ Proof.
       * reflexivity.
     + rewrite read_line_nls. reflexivity.
   - (* ReadSexp *)
-    rewrite read_sexp_nls. cbn [forallb].
-    replace (j =? k) with false; [reflexivity|]. symmetry. apply Nat.eqb_neq. lia.
+    rewrite read_sexp_nls.
+    replace (j =? k) with false by (symmetry; apply Nat.eqb_neq; lia).
+    destruct (read_line (rest ++ [Body k; NL])) as [[l p'']|]; reflexivity.
   - (* NoRead *)
     cbn [forallb andb].
     change (Body j :: rest ++ [Body k; NL]) with (Body j :: (rest ++ [Body k; NL])).
     apply IH. lia.
 Qed.
 
-Definition pipe_of (m : nat) : pstate := match m with 0 => PClean | S _ => PDirty end.
-
-Lemma sync_clean_dirty : forall cmds k m,
-  forallb (fun b => b) (sync_flags k (repeat NL m) cmds) = sync_ok (pipe_of m) cmds.
+Lemma sync_clean : forall cmds k,
+  forallb (fun b => b) (sync_flags k [] cmds) = sync_ok PClean cmds.
 Proof.
-  induction cmds as [|c r IH]; intros k m; [reflexivity|].
-  cbn [sync_flags sync_ok].
+  induction cmds as [|c r IH]; intros k; [reflexivity|].
+  cbn [sync_flags sync_ok app].
   destruct (reads c) eqn:Er.
-  - destruct m as [|m].
-    + cbn [repeat app read_line pipe_of]. rewrite line_is_refl. cbn [forallb andb].
-      apply (IH (S k) 0).
-    + rewrite read_line_nls. reflexivity.
-  - rewrite read_sexp_nls. rewrite Nat.eqb_refl. cbn [forallb andb].
-    change [NL] with (repeat NL 1). rewrite (IH (S k) 1). destruct m; reflexivity.
-  - cbn [forallb andb].
-    rewrite (sync_broken r (S k) m k [NL]) by lia. destruct m; reflexivity.
+  - cbn [read_line]. rewrite line_is_refl. cbn [forallb andb]. apply IH.
+  - cbn [read_sexp read_line]. rewrite Nat.eqb_refl. cbn [forallb andb]. apply IH.
+  - cbn [forallb andb]. apply (sync_broken r (S k) 0 k [NL]). lia.
 Qed.
 
-(* EXACT criterion for every command stream: the reads stay attributed to their own
-   commands iff no line-reading command follows a get-value (and nothing reads after exit) *)
+(* EXACT criterion for every command stream: every read is attributed to its own command
+   unless something is sent after `exit` (whose reply is never read) *)
 Theorem in_sync_iff : forall cmds, in_sync cmds = sync_ok PClean cmds.
-Proof. intros cmds. unfold in_sync. apply (sync_clean_dirty cmds 0 0). Qed.
+Proof. intros cmds. unfold in_sync. apply sync_clean. Qed.
 
 (* -- history level ------------------------------------------------------ *)
-Definition is_line (c : command) : bool := match reads c with ReadLine => true | _ => false end.
-Definition is_value (c : command) : bool := match reads c with ReadSexp => true | _ => false end.
+Definition reading (c : command) : bool := match reads c with NoRead => false | _ => true end.
 
 Definition only (P : command -> bool) (a : M) : Prop := forall w, forallb P (snd (a w)) = true.
 
@@ -81,98 +75,81 @@ Lemma only_emit P c : P c = true -> only P (emit c).
 Proof. intros Hc. apply only_guard. intros w. cbn. rewrite Hc. reflexivity. Qed.
 Lemma only_nil P (f : wstate -> wstate) : only P (guard (fun w => (f w, []))).
 Proof. apply only_guard. intros w. reflexivity. Qed.
+Lemma only_ret P : only P ret. Proof. intros w. reflexivity. Qed.
 Lemma only_push_level P : only P w_push_level. Proof. apply only_nil. Qed.
 Lemma only_set_pending P b : only P (set_pending b). Proof. apply only_nil. Qed.
+Lemma only_reset_record P : only P w_reset_record. Proof. apply only_nil. Qed.
 Lemma only_pop_level P : only P w_pop_level.
 Proof. apply only_guard. intros w. destruct (decl w); reflexivity. Qed.
 Lemma only_record P s : only P (w_record s).
 Proof. apply only_guard. intros w. destruct (decl w); reflexivity. Qed.
-Lemma only_clear : only is_line clear_pending.
+Lemma only_repeat_m P a : only P a -> forall n, only P (repeat_m n a).
+Proof. intros Ha. induction n as [|n IH]; [apply only_ret | apply only_seq; assumption]. Qed.
+Lemma only_clear : only reading clear_pending.
 Proof.
   apply only_guard. intros w. destruct (pending w); [|reflexivity].
-  apply (only_seq is_line); [apply only_set_pending|].
+  apply (only_seq reading); [apply only_set_pending|].
   apply only_seq; [apply only_pop_level | apply only_emit; reflexivity].
 Qed.
-Lemma only_declare_missing : forall fv, only is_line (declare_missing fv).
+Lemma only_declare_missing : forall fv, only reading (declare_missing fv).
 Proof.
   induction fv as [|d r IH]; [intros w; reflexivity|].
   cbn [declare_missing]. apply only_seq; [|exact IH].
   apply only_guard. intros w. destruct (declared_in d (decl w)); [reflexivity|].
-  apply (only_seq is_line); [apply only_emit; reflexivity | apply only_record].
+  apply (only_seq reading); [apply only_emit; reflexivity | apply only_record].
 Qed.
-Lemma only_add f : only is_line (add_assertion f).
+Lemma only_add f : only reading (add_assertion f).
 Proof.
   apply only_seq; [apply only_clear|]. apply only_seq; [apply only_declare_missing|].
   apply only_emit; reflexivity.
 Qed.
-Lemma only_push n : only is_line (push n).
+Lemma only_push n : only reading (push n).
 Proof.
-  apply only_seq; [apply only_clear|]. apply only_seq; [apply only_push_level|].
-  apply only_emit; reflexivity.
+  apply only_seq; [apply only_clear|].
+  apply only_seq; [apply only_repeat_m, only_push_level | apply only_emit; reflexivity].
 Qed.
-Lemma only_pop n : only is_line (pop n).
+Lemma only_pop n : only reading (pop n).
 Proof.
-  apply only_seq; [apply only_clear|]. apply only_seq; [apply only_pop_level|].
-  apply only_emit; reflexivity.
+  apply only_seq; [apply only_clear|].
+  apply only_seq; [apply only_repeat_m, only_pop_level | apply only_emit; reflexivity].
 Qed.
-Lemma only_solve : only is_line solve.
+Lemma only_solve : only reading solve.
 Proof. apply only_seq; [apply only_clear | apply only_emit; reflexivity]. Qed.
-Lemma only_reset : only is_line reset_assertions.
-Proof. apply only_seq; [apply only_clear | apply only_emit; reflexivity]. Qed.
-Lemma only_is_sat f : only is_line (is_sat f).
+Lemma only_reset : only reading reset_assertions.
+Proof.
+  apply only_seq; [apply only_clear|].
+  apply only_seq; [apply only_emit; reflexivity | apply only_reset_record].
+Qed.
+Lemma only_is_sat f : only reading (is_sat f).
 Proof.
   apply only_seq; [apply only_push|]. apply only_seq; [apply only_add|].
   apply only_seq; [apply only_solve | apply only_set_pending].
 Qed.
-Lemma only_get_model : only is_value get_model.
-Proof.
-  apply only_guard. intros w. destruct (decl w) as [|top r]; [reflexivity|].
-  cbn. induction top; cbn; auto.
-Qed.
+Lemma only_get_model : only reading get_model.
+Proof. apply only_guard. intros w. cbn. induction (concat (decl w)); cbn; auto. Qed.
 
-(* calls that ask for values / all other calls except exit *)
-Definition value_call (a : api_call) : bool :=
-  match a with AGetValue _ | AGetModel => true | _ => false end.
-Definition line_call (a : api_call) : bool :=
-  match a with AGetValue _ | AGetModel | AExit => false | _ => true end.
-
-Lemma line_call_cmds a w : line_call a = true -> forallb is_line (snd (api_step w a)) = true.
+Lemma reading_call_cmds a w : a <> AExit -> forallb reading (snd (api_step w a)) = true.
 Proof.
-  destruct a; cbn [line_call api_step]; intros H; try discriminate;
+  destruct a; cbn [api_step]; intros H; try congruence;
     first [apply only_add | apply only_push | apply only_pop | apply only_solve
-          | apply only_reset | apply only_is_sat].
-Qed.
-Lemma value_call_cmds a w : value_call a = true -> forallb is_value (snd (api_step w a)) = true.
-Proof.
-  destruct a; cbn [value_call api_step]; intros H; try discriminate.
-  - apply (only_emit is_value); reflexivity.
-  - apply only_get_model.
+          | apply only_reset | apply only_is_sat | apply only_get_model
+          | apply (only_emit reading); reflexivity].
 Qed.
 
-Lemma sync_ok_lines : forall cs rest, forallb is_line cs = true ->
+Lemma sync_ok_reading : forall cs rest, forallb reading cs = true ->
   sync_ok PClean (cs ++ rest) = sync_ok PClean rest.
 Proof.
   induction cs as [|c r IH]; intros rest H; [reflexivity|].
   cbn in H. apply andb_true_iff in H. destruct H as [Hc Hr].
-  cbn [app sync_ok]. unfold is_line in Hc. destruct (reads c); try discriminate. apply IH, Hr.
-Qed.
-Lemma sync_ok_values : forall cs rest st, st <> PBroken -> forallb is_value cs = true ->
-  exists st', st' <> PBroken /\ sync_ok st (cs ++ rest) = sync_ok st' rest.
-Proof.
-  induction cs as [|c r IH]; intros rest st Hst H; [exists st; auto|].
-  cbn in H. apply andb_true_iff in H. destruct H as [Hc Hr].
-  cbn [app sync_ok]. unfold is_value in Hc. destruct (reads c); try discriminate.
-  destruct (IH rest PDirty) as (st' & H1 & H2); [discriminate | exact Hr |].
-  exists st'. split; auto. destruct st; auto. congruence.
+  cbn [app sync_ok]. unfold reading in Hc. destruct (reads c); try discriminate; apply IH, Hr.
 Qed.
 
-(* line calls first, then value queries, then (optionally) exit *)
-Fixpoint values_last (seen_value : bool) (h : list api_call) : bool :=
+(* exit (which terminates the solver process) can only be the last call *)
+Fixpoint exit_last (h : list api_call) : bool :=
   match h with
   | [] => true
   | AExit :: r => match r with [] => true | _ => false end
-  | a :: r => if value_call a then values_last true r
-              else negb seen_value && values_last false r
+  | _ :: r => exit_last r
   end.
 
 Lemma run_api_cons w a r :
@@ -182,58 +159,41 @@ Proof.
   destruct (run_api w1 r) as [w2 c2]. reflexivity.
 Qed.
 
-Lemma sync_values_tail : forall h w st, st <> PBroken -> values_last true h = true ->
-  sync_ok st (snd (run_api w h)) = true.
-Proof.
-  induction h as [|a r IH]; intros w st Hst H; [reflexivity|].
-  rewrite run_api_cons.
-  destruct (value_call a) eqn:Ev.
-  - assert (Hr : values_last true r = true) by (destruct a; cbn in *; try discriminate; exact H).
-    destruct (sync_ok_values (snd (api_step w a)) (snd (run_api (fst (api_step w a)) r)) st Hst
-                (value_call_cmds a w Ev)) as (st' & H1 & H2).
-    rewrite H2. apply IH; auto.
-  - destruct a; cbn in Ev, H; try discriminate.
-    destruct r; [|discriminate]. cbn. unfold exit_, emit, guard.
-    destruct (werr w); cbn; [reflexivity|]. destruct st; reflexivity.
-Qed.
-
-Lemma sync_values_last : forall h w, values_last false h = true ->
-  sync_ok PClean (snd (run_api w h)) = true.
+Lemma sync_run : forall h w, exit_last h = true -> sync_ok PClean (snd (run_api w h)) = true.
 Proof.
   induction h as [|a r IH]; intros w H; [reflexivity|].
-  destruct (value_call a) eqn:Ev.
-  - apply sync_values_tail; [discriminate|].
-    destruct a; cbn in Ev |- *; try discriminate; cbn in H; exact H.
-  - destruct (line_call a) eqn:El.
-    + rewrite run_api_cons. rewrite sync_ok_lines by (apply line_call_cmds; exact El).
-      apply IH. destruct a; cbn in Ev, El, H |- *; try discriminate; exact H.
-    + destruct a; cbn in Ev, El; try discriminate.
-      apply sync_values_tail; [discriminate|]. exact H.
+  rewrite run_api_cons.
+  assert (Hd : {a = AExit} + {a <> AExit}) by (destruct a; (left; reflexivity) || (right; discriminate)).
+  destruct Hd as [->|Hne].
+  - cbn in H. destruct r; [|discriminate]. cbn. unfold exit_, emit, guard.
+    destruct (werr w); reflexivity.
+  - rewrite sync_ok_reading by (apply reading_call_cmds; exact Hne).
+    apply IH. destruct a; cbn in H; try exact H. congruence.
 Qed.
 
-(* PARTIAL (history level): if all value queries come after all other calls, every reply is
-   read by the command that caused it *)
-Theorem replies_in_sync_partial : forall h, values_last false h = true -> in_sync (stream h) = true.
+(* FULL CLAUSE: for every history (exit, if any, last) every reply is read by the command that
+   caused it *)
+Theorem replies_in_sync : forall h, exit_last h = true -> in_sync (stream h) = true.
 Proof.
   intros h H. rewrite in_sync_iff. unfold stream.
   change (preamble ++ snd (run_api w_init h))
     with ([CSetOption; CSetOption; CSetOption; CSetLogic] ++ snd (run_api w_init h)).
-  rewrite sync_ok_lines by reflexivity. apply sync_values_last, H.
+  rewrite sync_ok_reading by reflexivity. apply sync_run, H.
 Qed.
 
-(* the side condition is satisfiable by a non-trivial history *)
-Example values_last_example :
-  values_last false [APush 1; AAdd (FAtom 0 [0; 1]); AIsSat (FAtom 1 [2]); ASolve;
-                     AGetValue [0]; AGetModel; AExit] = true.
-Proof. reflexivity. Qed.
+Lemma user_legal_exit_last : forall h d, user_legal d h = true -> exit_last h = true.
+Proof.
+  induction h as [|a r IH]; intros d H; [reflexivity|].
+  destruct a; cbn in H |- *; try (eapply IH; exact H).
+  - apply andb_true_iff in H. eapply IH. exact (proj2 H).
+  - exact H.
+Qed.
 
-(* REFUTED (full clause): assert x; solve; get_value x; solve -- the second check-sat reads the
-   newline left behind by the get-value reply instead of its own verdict *)
-Definition sync_witness : list api_call :=
-  [AAdd (FAtom 0 [0]); ASolve; AGetValue [0]; ASolve].
-Theorem replies_in_sync_refuted :
-  exists h, user_legal 0 h = true /\ unit_levels h = true /\ in_sync (stream h) = false.
-Proof. exists sync_witness. repeat split; reflexivity. Qed.
+(* value queries in the middle of a history, get_model at depth, then more commands *)
+Example sync_example :
+  in_sync (stream [AAdd (FAtom 0 [0]); ASolve; AGetValue [0]; ASolve; APush 2; AAdd (FAtom 1 [1]);
+                   AIsSat (FAtom 2 [2]); AGetModel; APop 2; AReset; ASolve; AExit]) = true.
+Proof. reflexivity. Qed.
 
 (* ====================================================================== *)
 (* B. Legality of the emitted stream                                       *)
@@ -451,39 +411,95 @@ Section Legal.
     runs (set_pending b) w s (mkW (decl w) b false) s [] [].
   Proof. intros He. split; [unfold set_pending, guard; rewrite He|]; reflexivity. Qed.
 
-  Lemma push_ok w s i d : Inv w s i d ->
-    exists w' s' cs rs, runs (push 1) w s w' s' cs rs /\ no_error rs = true /\
-      Inv w' s' ([] :: i) (S d) /\ pending w' = false.
+  Lemma repeat_cons_comm {A} (x : A) n l : repeat x n ++ x :: l = x :: repeat x n ++ l.
+  Proof. induction n as [|n IH]; cbn; [reflexivity | rewrite IH; reflexivity]. Qed.
+  Lemma map_repeat_l {A B} (f : A -> B) x n : map f (repeat x n) = repeat (f x) n.
+  Proof. induction n as [|n IH]; cbn; [reflexivity | rewrite IH; reflexivity]. Qed.
+  Lemma skipn_map_l {A B} (f : A -> B) : forall n l, skipn n (map f l) = map f (skipn n l).
+  Proof. induction n as [|n IH]; intros [|x l]; cbn; auto. Qed.
+
+  Lemma push_levels_runs : forall n w s, werr w = false ->
+    runs (repeat_m n w_push_level) w s (mkW (repeat [] n ++ decl w) (pending w) false) s [] [].
+  Proof.
+    induction n as [|n IH]; intros w s He.
+    - destruct w as [dl p e]. cbn in He. subst e. split; reflexivity.
+    - pose proof (push_level_runs w s He) as R1.
+      pose proof (IH (mkW ([] :: decl w) (pending w) false) s eq_refl) as R2.
+      cbn [decl pending] in R2. rewrite repeat_cons_comm in R2.
+      exact (runs_seq _ _ _ _ _ _ _ _ _ _ _ _ R1 R2).
+  Qed.
+
+  Lemma pop_levels_runs : forall n w s, werr w = false -> n <= length (decl w) ->
+    runs (repeat_m n w_pop_level) w s (mkW (skipn n (decl w)) (pending w) false) s [] [].
+  Proof.
+    induction n as [|n IH]; intros w s He Hn.
+    - destruct w as [dl p e]. cbn in He. subst e. split; reflexivity.
+    - destruct w as [dl p e]. cbn in He, Hn. subst e. destruct dl as [|t dl]; [cbn in Hn; lia|].
+      assert (R1 : runs w_pop_level (mkW (t :: dl) p false) s (mkW dl p false) s [] [])
+        by (split; reflexivity).
+      pose proof (IH (mkW dl p false) s eq_refl) as R2. cbn [decl pending] in R2.
+      assert (Hn' : n <= length dl) by (cbn in Hn; lia).
+      exact (runs_seq _ _ _ _ _ _ _ _ _ _ _ _ R1 (R2 Hn')).
+  Qed.
+
+  Lemma push_ok n w s i d : Inv w s i d ->
+    exists w' s' cs rs, runs (push n) w s w' s' cs rs /\ no_error rs = true /\
+      Inv w' s' (repeat [] n ++ i) (d + n) /\ pending w' = false.
   Proof.
     intros HI. destruct (clear_ok w s i d HI) as (w1 & s1 & c1 & r1 & R1 & N1 & I1 & P1).
     destruct I1 as (He & Hd & Ha & Hl & Hwf). rewrite P1 in Ha.
-    pose proof (push_level_runs w1 s1 He) as R2.
-    set (w2 := mkW ([] :: decl w1) (pending w1) false) in *.
-    pose proof (emit_runs (CPush 1) w2 s1 eq_refl) as R3. cbn [spec_step fst snd repeat app] in R3.
-    exists w2, (mkL [] [] :: s1), (c1 ++ [] ++ [CPush 1]), (r1 ++ [] ++ [RSuccess]).
+    pose proof (push_levels_runs n w1 s1 He) as R2.
+    set (w2 := mkW (repeat [] n ++ decl w1) (pending w1) false) in *.
+    pose proof (emit_runs (CPush n) w2 s1 eq_refl) as R3. cbn [spec_step fst snd] in R3.
+    exists w2, (repeat (mkL [] []) n ++ s1), (c1 ++ [] ++ [CPush n]), (r1 ++ [] ++ [RSuccess]).
     split; [eapply runs_seq; [exact R1|]; eapply runs_seq; [exact R2 | exact R3]|].
     split; [rewrite !no_error_app, N1; reflexivity|].
     split; [|exact P1].
-    unfold Inv, w2. cbn [werr decl pending]. rewrite P1. cbn [map ldecl lasserts length].
-    split; [reflexivity|]. split; [congruence|]. split; [congruence|]. split; [congruence|].
-    split; [intros f x []|exact Hwf].
+    unfold Inv, w2. cbn [werr decl pending]. rewrite P1.
+    rewrite !map_app, !map_repeat_l. cbn [ldecl lasserts].
+    split; [reflexivity|]. split; [congruence|]. split; [congruence|].
+    split; [rewrite app_length, repeat_length; lia | apply wf_push, Hwf].
   Qed.
 
-  Lemma pop_ok w s i d : Inv w s i d -> 1 <= d ->
-    exists w' s' cs rs, runs (pop 1) w s w' s' cs rs /\ no_error rs = true /\
-      Inv w' s' (skipn 1 i) (d - 1) /\ pending w' = false.
+  Lemma pop_ok n w s i d : Inv w s i d -> n <= d ->
+    exists w' s' cs rs, runs (pop n) w s w' s' cs rs /\ no_error rs = true /\
+      Inv w' s' (skipn n i) (d - n) /\ pending w' = false.
   Proof.
     intros HI Hd1. destruct (clear_ok w s i d HI) as (w1 & s1 & c1 & r1 & R1 & N1 & I1 & P1).
     destruct I1 as (He & Hd & Ha & Hl & Hwf). rewrite P1 in Ha.
-    destruct w1 as [dl p e]. cbn in He, Hd, P1. subst e p dl.
-    destruct s1 as [|l0 [|l1 s2]]; cbn in Ha; subst i; cbn in Hl; try lia.
-    exists (mkW (ldecl l1 :: map ldecl s2) false false), (l1 :: s2),
-           (c1 ++ [] ++ [CPop 1]), (r1 ++ [] ++ [RSuccess]).
-    split; [eapply runs_seq; [exact R1|]; eapply runs_seq; split; reflexivity|].
+    assert (Hlen : length s1 = S d) by (rewrite <- Hl, <- Ha, map_length; reflexivity).
+    assert (Hn : n <= length (decl w1)) by (rewrite <- Hd, map_length; lia).
+    pose proof (pop_levels_runs n w1 s1 He Hn) as R2.
+    set (w2 := mkW (skipn n (decl w1)) (pending w1) false) in *.
+    pose proof (emit_runs (CPop n) w2 s1 eq_refl) as R3. cbn [spec_step] in R3.
+    assert (Hlt : (n <? length s1) = true) by (apply Nat.ltb_lt; lia).
+    rewrite Hlt in R3. cbn [fst snd] in R3.
+    exists w2, (skipn n s1), (c1 ++ [] ++ [CPop n]), (r1 ++ [] ++ [RSuccess]).
+    split; [eapply runs_seq; [exact R1|]; eapply runs_seq; [exact R2 | exact R3]|].
     split; [rewrite !no_error_app, N1; reflexivity|].
-    split; [|reflexivity].
-    unfold Inv. cbn. split; [reflexivity|]. split; [reflexivity|]. split; [reflexivity|].
-    split; [lia | exact (proj2 Hwf)].
+    split; [|exact P1].
+    unfold Inv, w2. cbn [werr decl pending]. rewrite P1.
+    split; [reflexivity|]. split; [rewrite <- Hd, skipn_map_l; reflexivity|].
+    split; [rewrite <- Ha, skipn_map_l; reflexivity|].
+    split; [rewrite skipn_length; lia | apply wf_skipn, Hwf].
+  Qed.
+
+  Lemma reset_ok w s i d : Inv w s i d ->
+    exists w' s' cs rs, runs reset_assertions w s w' s' cs rs /\ no_error rs = true /\
+      Inv w' s' ideal_init 0 /\ pending w' = false.
+  Proof.
+    intros HI. destruct (clear_ok w s i d HI) as (w1 & s1 & c1 & r1 & R1 & N1 & I1 & P1).
+    destruct I1 as (He & Hd & Ha & Hl & Hwf).
+    pose proof (emit_runs CResetAssertions w1 s1 He) as R2. cbn [spec_step fst snd] in R2.
+    assert (R3 : runs w_reset_record w1 s_init (mkW [[]] (pending w1) false) s_init [] [])
+      by (split; [unfold w_reset_record, guard; rewrite He|]; reflexivity).
+    exists (mkW [[]] (pending w1) false), s_init, (c1 ++ [CResetAssertions] ++ []), (r1 ++ [RSuccess] ++ []).
+    split; [eapply runs_seq; [exact R1|]; eapply runs_seq; [exact R2 | exact R3]|].
+    split; [rewrite !no_error_app, N1; reflexivity|].
+    split; [|exact P1].
+    unfold Inv. cbn [werr decl pending]. rewrite P1. cbn.
+    split; [reflexivity|]. split; [reflexivity|]. split; [reflexivity|].
+    split; [reflexivity|]. split; [intros f x []|exact I].
   Qed.
 
   Lemma solve_ok w s i d : Inv w s i d ->
@@ -536,16 +552,27 @@ Section Legal.
   Lemma no_error_values l : no_error (map (fun x => RValue [x]) l) = true.
   Proof. induction l; cbn; auto. Qed.
 
+  Lemma in_concat_declared : forall s x, In x (concat (map ldecl s)) -> s_declared x s = true.
+  Proof.
+    induction s as [|l r IH]; intros x H; [destruct H|].
+    cbn in H. apply in_app_or in H. unfold s_declared. cbn [existsb]. destruct H as [H|H].
+    - rewrite (In_mem x _ H). reflexivity.
+    - apply IH in H. unfold s_declared in H. rewrite H. apply orb_true_r.
+  Qed.
+  Lemma declared_in_concat : forall s x, s_declared x s = true -> In x (concat (map ldecl s)).
+  Proof.
+    induction s as [|l r IH]; intros x H; [discriminate|].
+    unfold s_declared in H. cbn [existsb] in H. apply orb_true_iff in H. cbn. apply in_or_app.
+    destruct H as [H|H]; [left; apply mem_In, H | right; apply IH, H].
+  Qed.
+
   Lemma get_model_ok w s i d : Inv w s i d ->
     runs get_model w s w s (map (fun x => CGetValue [x]) (model_queries w))
          (map (fun x => RValue [x]) (model_queries w)).
   Proof.
-    intros HI. pose proof (inv_nonempty w s i d HI) as Hne.
-    destruct HI as (He & Hd & _). destruct s as [|l r]; [congruence|].
-    unfold model_queries. rewrite <- Hd. cbn [map hd]. split.
-    - unfold get_model, guard. rewrite He, <- Hd. reflexivity.
-    - apply value_queries_ok. intros x Hx. unfold s_declared. cbn [existsb].
-      rewrite (In_mem x _ Hx). reflexivity.
+    intros (He & Hd & _). unfold model_queries. split.
+    - unfold get_model, guard. rewrite He. reflexivity.
+    - apply value_queries_ok. intros x Hx. rewrite <- Hd in Hx. apply in_concat_declared, Hx.
   Qed.
 
   Lemma is_sat_ok f w s i d : Inv w s i d ->
@@ -553,7 +580,8 @@ Section Legal.
       Inv w' s' i d /\ verdict_of rs = Some (decide (f :: ideal_live i)).
   Proof.
     intros HI. pose proof HI as (_ & _ & _ & Hlen & _).
-    destruct (push_ok w s i d HI) as (w1 & s1 & c1 & r1 & R1 & N1 & I1 & P1).
+    destruct (push_ok 1 w s i d HI) as (w1 & s1 & c1 & r1 & R1 & N1 & I1 & P1).
+    cbn [repeat app] in I1.
     destruct (add_ok f w1 s1 _ _ I1) as (w2 & s2 & c2 & r2 & R2 & N2 & I2 & P2).
     cbn [ideal_step] in I2.
     destruct (solve_ok w2 s2 _ _ I2) as (w3 & s3 & c3 & r3 & R3 & N3 & I3 & P3 & V3).
@@ -582,23 +610,22 @@ Section Legal.
     | _ => true
     end.
 
-  Lemma api_ok a w s i d : Inv w s i d -> unit_call a = true -> call_legal i d a = true ->
+  Lemma api_ok a w s i d : Inv w s i d -> call_legal i d a = true ->
     exists w' s' cs rs, runs (fun w => api_step w a) w s w' s' cs rs /\ no_error rs = true /\
       Inv w' s' (ideal_step i a) (depth_after d a) /\
       (a = ASolve -> verdict_of rs = Some (decide (ideal_live i))) /\
       (forall f, check_formula a = Some f -> verdict_of rs = Some (decide (f :: ideal_live i))).
   Proof.
-    intros HI Hu Hc. destruct a; cbn [api_step unit_call call_legal] in *; try discriminate.
+    intros HI Hc. destruct a; cbn [api_step call_legal] in *.
     - destruct (add_ok f w s i d HI) as (w' & s' & cs & rs & R & N & I' & _).
       exists w', s', cs, rs. split; [exact R|]. split; [exact N|]. split; [exact I'|].
       split; [discriminate | intros g E; discriminate E].
-    - apply Nat.eqb_eq in Hu. subst n.
-      destruct (push_ok w s i d HI) as (w' & s' & cs & rs & R & N & I' & _).
-      exists w', s', cs, rs. cbn [depth_after ideal_step repeat app]. rewrite Nat.add_1_r.
+    - destruct (push_ok n w s i d HI) as (w' & s' & cs & rs & R & N & I' & _).
+      exists w', s', cs, rs. cbn [depth_after ideal_step].
       split; [exact R|]. split; [exact N|]. split; [exact I'|].
       split; [discriminate | intros g E; discriminate E].
-    - apply Nat.eqb_eq in Hu. subst n. apply Nat.leb_le in Hc.
-      destruct (pop_ok w s i d HI Hc) as (w' & s' & cs & rs & R & N & I' & _).
+    - apply Nat.leb_le in Hc.
+      destruct (pop_ok n w s i d HI Hc) as (w' & s' & cs & rs & R & N & I' & _).
       exists w', s', cs, rs. split; [exact R|]. split; [exact N|]. split; [exact I'|].
       split; [discriminate | intros g E; discriminate E].
     - destruct (solve_ok w s i d HI) as (w' & s' & cs & rs & R & N & I' & _ & V).
@@ -611,6 +638,9 @@ Section Legal.
              (map (fun x => RValue [x]) (model_queries w)).
       split; [exact (get_model_ok w s i d HI)|]. split; [apply no_error_values|].
       split; [exact HI|]. split; [discriminate | intros g E; discriminate E].
+    - destruct (reset_ok w s i d HI) as (w' & s' & cs & rs & R & N & I' & _).
+      exists w', s', cs, rs. split; [exact R|]. split; [exact N|]. split; [exact I'|].
+      split; [discriminate | intros g E; discriminate E].
     - destruct (is_sat_ok f w s i d HI) as (w' & s' & cs & rs & R & N & I' & V).
       exists w', s', cs, rs. split; [exact R|]. split; [exact N|]. split; [exact I'|].
       split; [discriminate|]. intros g E. cbn in E. injection E as <-. exact V.
@@ -630,7 +660,7 @@ Section Legal.
   Fixpoint history_legal (i : ideal) (d : nat) (h : list api_call) : bool :=
     match h with
     | [] => true
-    | a :: r => unit_call a && call_legal i d a &&
+    | a :: r => call_legal i d a &&
                 match a with AExit => match r with [] => true | _ => false end | _ => true end &&
                 history_legal (ideal_step i a) (depth_after d a) r
     end.
@@ -647,9 +677,8 @@ Section Legal.
     induction h as [|a r IH]; intros w s i d HI HL.
     - exists w, s, [], []. repeat split; auto; apply HI.
     - cbn [history_legal] in HL. apply andb_true_iff in HL. destruct HL as [HL Hr].
-      apply andb_true_iff in HL. destruct HL as [HL _].
-      apply andb_true_iff in HL. destruct HL as [Hu Hc].
-      destruct (api_ok a w s i d HI Hu Hc) as (w1 & s1 & c1 & r1 & [R1 S1] & N1 & I1 & _).
+      apply andb_true_iff in HL. destruct HL as [Hc _].
+      destruct (api_ok a w s i d HI Hc) as (w1 & s1 & c1 & r1 & [R1 S1] & N1 & I1 & _).
       destruct (IH w1 s1 _ _ I1 Hr) as (w2 & s2 & c2 & r2 & R2 & S2 & N2 & I2).
       exists w2, s2, (c1 ++ c2), (r1 ++ r2). cbn [run_api ideal_run depth_run].
       rewrite R1, R2. split; [reflexivity|].
@@ -663,11 +692,12 @@ Section Legal.
     split; [reflexivity|]. split; [intros f x []|exact I].
   Qed.
 
-  (* PARTIAL: on histories that push / pop one level at a time, never reset, respect the
-     user-level stack discipline and query only symbols of live assertions, the emitted stream
-     is accepted by the strict solver (declared before use, exactly once while in scope,
-     push/pop mirrored) and the wrapper raises no internal error *)
-  Theorem stream_legal_partial : forall h, history_legal ideal_init 0 h = true ->
+  (* FULL CLAUSE: on every history that respects the user-level stack discipline (push(n) /
+     pop(n) for any n, reset_assertions, one-shot checks, get_model anywhere) and whose
+     get_value queries mention only symbols of live assertions, the emitted stream is accepted
+     by the strict solver (declared before use, exactly once while in scope, push/pop mirrored
+     level by level) and the wrapper raises no internal error *)
+  Theorem stream_legal : forall h, history_legal ideal_init 0 h = true ->
     accepted decide (stream h) = true /\ werr (final h) = false.
   Proof.
     intros h HL. destruct (run_ok h w_init s_init ideal_init 0 inv_init HL)
@@ -676,6 +706,25 @@ Section Legal.
     rewrite spec_exec_app. cbn [preamble spec_exec spec_step]. fold s_init. rewrite S. cbn [snd].
     split; [cbn; exact N | apply I'].
   Qed.
+
+  (* history_legal is user_legal plus the condition on get_value: without get_value calls every
+     user-legal history qualifies *)
+  Definition no_value_query (a : api_call) : bool :=
+    match a with AGetValue _ => false | _ => true end.
+  Lemma user_legal_history_legal : forall h i d, user_legal d h = true ->
+    forallb no_value_query h = true -> history_legal i d h = true.
+  Proof.
+    induction h as [|a r IH]; intros i d HU HQ; [reflexivity|].
+    cbn [forallb] in HQ. apply andb_true_iff in HQ. destruct HQ as [Hq Hr].
+    cbn [history_legal].
+    destruct a; cbn [user_legal call_legal depth_after andb no_value_query] in *;
+      try discriminate; try (apply IH; assumption).
+    - apply andb_true_iff in HU. destruct HU as [H1 H2]. rewrite H1. cbn [andb]. apply IH; assumption.
+    - destruct r; [reflexivity | discriminate].
+  Qed.
+  Theorem stream_legal_user : forall h, user_legal 0 h = true -> forallb no_value_query h = true ->
+    accepted decide (stream h) = true /\ werr (final h) = false.
+  Proof. intros h HU HQ. apply stream_legal. apply user_legal_history_legal; assumption. Qed.
 
   (* the solver's assertion stack after a legal history is the one the user means; every
      symbol of a live assertion is declared in the solver *)
@@ -702,132 +751,84 @@ Section Legal.
     intros h a HL.
     assert (Hsplit : forall h i d, history_legal i d (h ++ [a]) = true ->
               history_legal i d h = true /\
-              unit_call a = true /\ call_legal (ideal_run i h) (depth_run d h) a = true).
+              call_legal (ideal_run i h) (depth_run d h) a = true).
     { clear. induction h as [|b r IH]; intros i d H.
       - cbn in H. rewrite !andb_true_iff in H. cbn. tauto.
       - cbn [app history_legal] in H. rewrite !andb_true_iff in H.
-        destruct H as [[[H1 H2] H3] H4]. destruct (IH _ _ H4) as (Q1 & Q2 & Q3).
-        cbn [history_legal ideal_run depth_run]. rewrite H1, H2, Q1. cbn [andb].
-        split; [|split; assumption].
+        destruct H as [[H1 H3] H4]. destruct (IH _ _ H4) as (Q1 & Q3).
+        cbn [history_legal ideal_run depth_run]. rewrite H1, Q1. cbn [andb].
+        split; [|assumption].
         destruct b; auto. destruct r; [reflexivity | destruct (r ++ [a]); discriminate]. }
-    destruct (Hsplit h _ _ HL) as (HLh & Hu & Hc).
+    destruct (Hsplit h _ _ HL) as (HLh & Hc).
     destruct (run_ok h w_init s_init ideal_init 0 inv_init HLh)
       as (w' & s' & cs & rs & R & S & N & I').
     cbn zeta. unfold final. rewrite R. cbn [fst snd]. rewrite S. cbn [fst].
-    destruct (api_ok a w' s' _ _ I' Hu Hc) as (w2 & s2 & c2 & r2 & [R2 S2] & _ & _ & V1 & V2).
+    destruct (api_ok a w' s' _ _ I' Hc) as (w2 & s2 & c2 & r2 & [R2 S2] & _ & _ & V1 & V2).
     rewrite R2. cbn [snd]. rewrite S2. cbn [snd]. split; assumption.
   Qed.
 
-  (* MODEL: at user level 0 with no one-shot level pending, get_model asks the solver about
-     every symbol of every live assertion (and the strict solver answers each query) *)
-  Theorem model_complete_partial : forall h, history_legal ideal_init 0 h = true ->
-    depth_run 0 h = 0 -> pending (final h) = false ->
+  (* FULL CLAUSE: after every legal history, at every depth and with or without a pending
+     one-shot level, get_model asks the solver about every symbol of every live assertion (and
+     the strict solver answers each query: get_model_ok) *)
+  Theorem model_complete : forall h, history_legal ideal_init 0 h = true ->
     forall f x, In f (ideal_live (ideal_run ideal_init h)) -> In x (fvs f) ->
       In x (model_queries (final h)).
   Proof.
-    intros h HL Hd Hp f x Hf Hx.
+    intros h HL f x Hf Hx.
     destruct (state_tracks_ideal h HL) as (s' & _ & HI).
     pose proof (inv_declared _ _ _ _ f x HI Hf Hx) as Hdecl.
-    destruct HI as (He & Hdl & Ha & Hl & Hwf). rewrite Hp in Ha. rewrite Hd in Hl.
-    destruct s' as [|l [|l1 r]]; cbn in Ha; rewrite <- Ha in Hl; cbn in Hl; try lia.
-    unfold model_queries. rewrite <- Hdl. cbn [map hd].
-    unfold s_declared in Hdecl. cbn [existsb] in Hdecl. rewrite orb_false_r in Hdecl.
-    apply mem_In, Hdecl.
+    destruct HI as (_ & Hdl & _). unfold model_queries. rewrite <- Hdl.
+    apply declared_in_concat, Hdecl.
   Qed.
 End Legal.
 
-(* the side conditions are satisfiable by a non-trivial history (three levels, a one-shot check
-   whose pending level is cleared by the next call, value queries on live symbols) *)
+(* the side condition is satisfiable by a non-trivial history: multi-level push/pop, a one-shot
+   check whose pending level is cleared by the next call, value queries in the middle, reset *)
 Definition legal_example : list api_call :=
-  [AAdd (FAtom 0 [0; 1]); APush 1; AAdd (FAtom 1 [1; 2]); AIsSat (FAtom 2 [3]); APush 1;
-   AAdd (FNot (FAtom 3 [0; 3])); ASolve; APop 1; AIsValid (FAtom 4 [2]); APop 1; ASolve;
-   AGetValue [0; 1]; AGetModel; AExit].
+  [AAdd (FAtom 0 [0; 1]); APush 2; AAdd (FAtom 1 [1; 2]); AIsSat (FAtom 2 [3]); APush 1;
+   AAdd (FNot (FAtom 3 [0; 3])); ASolve; AGetValue [0; 3]; AGetModel; APop 2;
+   AIsValid (FAtom 4 [2]); APop 1; ASolve; AReset; AAdd (FAtom 5 [0]); ASolve; AGetModel; AExit].
 Example legal_example_ok : history_legal ideal_init 0 legal_example = true.
 Proof. reflexivity. Qed.
 Example legal_example_stream :
   snd (run_api w_init legal_example) =
-  [CDeclare 0; CDeclare 1; CAssert (FAtom 0 [0; 1]); CPush 1; CDeclare 2; CAssert (FAtom 1 [1; 2]);
-   CPush 1; CDeclare 3; CAssert (FAtom 2 [3]); CCheckSat; CPop 1; CPush 1; CDeclare 3;
-   CAssert (FNot (FAtom 3 [0; 3])); CCheckSat; CPop 1; CPush 1; CAssert (FNot (FAtom 4 [2]));
-   CCheckSat; CPop 1; CPop 1; CCheckSat; CGetValue [0; 1]; CGetValue [1]; CGetValue [0]; CExit].
+  [CDeclare 0; CDeclare 1; CAssert (FAtom 0 [0; 1]); CPush 2; CDeclare 2; CAssert (FAtom 1 [1; 2]); CPush 1; CDeclare 3; CAssert (FAtom 2 [3]); CCheckSat; CPop 1; CPush 1; CDeclare 3; CAssert (FNot (FAtom 3 [0; 3])); CCheckSat; CGetValue [0; 3]; CGetValue [3]; CGetValue [2]; CGetValue [1]; CGetValue [0]; CPop 2; CPush 1; CDeclare 2; CAssert (FNot (FAtom 4 [2])); CCheckSat; CPop 1; CPop 1; CCheckSat; CResetAssertions; CDeclare 0; CAssert (FAtom 5 [0]); CCheckSat; CGetValue [0]; CExit].
 Proof. reflexivity. Qed.
 
-(* the hypotheses of model_complete_partial are satisfiable after pushes, pops and one-shot checks *)
-Example model_complete_example :
-  let h := [AAdd (FAtom 0 [0; 1]); APush 1; AAdd (FAtom 1 [2]); AIsSat (FAtom 2 [3]); APop 1;
-            AAdd (FAtom 3 [1; 4]); ASolve] in
-  history_legal ideal_init 0 h = true /\ depth_run 0 h = 0 /\ pending (final h) = false /\
-  model_queries (final h) = [4; 1; 0].
-Proof. repeat split; reflexivity. Qed.
-
 (* ====================================================================== *)
-(* C. The full clauses are FALSE of the faithful model: witnesses          *)
+(* C. One clause is still FALSE of the faithful model: witness             *)
 (* ====================================================================== *)
 
 Definition X := FAtom 0 [0].
 Definition Y := FAtom 1 [1].
 
-(* pop(2) removes ONE set of the wrapper's record but two solver levels: x is used after its
-   declaration went out of scope *)
-Definition pop2_witness : list api_call := [APush 1; AAdd X; APush 1; APop 2; AAdd X].
-(* push(2) records one level: the second pop(1) empties declared_vars, the next declaration
-   raises IndexError *)
-Definition push2_witness : list api_call := [APush 2; APop 1; APop 1; AAdd X].
-(* push(2) ... the wrapper forgets x while the solver still has it: x is declared twice in scope *)
-Definition redeclare_witness : list api_call :=
-  [APush 1; APush 1; APop 2; AAdd X; APush 2; APop 1; APop 1; AAdd X].
-(* reset_assertions keeps the declaration record although the solver forgot the declarations *)
-Definition reset_witness : list api_call := [AAdd X; AReset; AAdd X].
-
-(* get_value never declares: a symbol that occurs in no (simplified) assertion is sent undeclared *)
+(* get_value never declares: a symbol that occurs in no (simplified) assertion is sent undeclared
+   (declaring it on the spot would leave sat mode, in which get-value is not allowed) *)
 Definition value_witness : list api_call := [AAdd X; ASolve; AGetValue [1]].
 
 Definition legal_and_quiet (decide : list form -> bool) (h : list api_call) : bool :=
   accepted decide (stream h) && negb (werr (final h)).
 
-Theorem stream_legal_refuted_pop_n : user_legal 0 pop2_witness = true /\
-  forall decide, accepted decide (stream pop2_witness) = false.
-Proof. split; reflexivity. Qed.
-Theorem stream_legal_refuted_push_n : user_legal 0 push2_witness = true /\
-  werr (final push2_witness) = true.
-Proof. split; reflexivity. Qed.
-Theorem stream_legal_refuted_redeclare : user_legal 0 redeclare_witness = true /\
-  forall decide, accepted decide (stream redeclare_witness) = false.
-Proof. split; reflexivity. Qed.
-Theorem stream_legal_refuted_reset : user_legal 0 reset_witness = true /\
-  forall decide, accepted decide (stream reset_witness) = false.
-Proof. split; reflexivity. Qed.
-
 Theorem stream_legal_refuted_value : user_legal 0 value_witness = true /\
   forall decide, accepted decide (stream value_witness) = false.
 Proof. split; reflexivity. Qed.
 
-(* the full clause "every user-legal history yields a legal stream and no internal error" *)
+(* the clause "EVERY user-legal history yields a legal stream" (no condition on get_value) *)
 Theorem stream_legal_refuted :
   exists h, user_legal 0 h = true /\ forall decide, legal_and_quiet decide h = false.
-Proof. exists pop2_witness. split; reflexivity. Qed.
+Proof. exists value_witness. split; reflexivity. Qed.
 
-(* get_model reads declared_vars[-1] only: a symbol declared below the top level is missing *)
-Definition model_witness : list api_call := [AAdd X; APush 1; AAdd Y].
-Theorem model_complete_refuted :
-  exists h f x, history_legal ideal_init 0 h = true /\
-    In f (ideal_live (ideal_run ideal_init h)) /\ In x (fvs f) /\
-    ~ In x (model_queries (final h)).
-Proof.
-  exists model_witness, X, 0. split; [reflexivity|]. split; [cbn; auto|]. split; [cbn; auto|].
-  cbn. intros [H|[]]. discriminate.
-Qed.
-(* same defect through the pending level of a one-shot check: is_sat(y); get_model() *)
-Definition model_witness_pending : list api_call := [AAdd X; AIsSat Y].
-Theorem model_complete_refuted_pending :
-  history_legal ideal_init 0 model_witness_pending = true /\
-  depth_run 0 model_witness_pending = 0 /\
-  In X (ideal_live (ideal_run ideal_init model_witness_pending)) /\
-  ~ In 0 (model_queries (final model_witness_pending)).
-Proof.
-  split; [reflexivity|]. split; [reflexivity|]. split; [cbn; auto|].
-  cbn. intros [H|[]]. discriminate.
-Qed.
+(* the histories that refuted the clauses before the fixes a-d are now handled *)
+Example former_witnesses_ok :
+  forallb (fun h => legal_and_quiet (fun _ => true) h && in_sync (stream h))
+    [ [AAdd X; ASolve; AGetValue [0]; ASolve];
+      [APush 1; AAdd X; APush 1; APop 2; AAdd X];
+      [APush 2; APop 1; APop 1; AAdd X];
+      [APush 1; APush 1; APop 2; AAdd X; APush 2; APop 1; APop 1; AAdd X];
+      [AAdd X; AReset; AAdd X] ] = true /\
+  model_queries (final [AAdd X; APush 1; AAdd Y]) = [1; 0] /\
+  model_queries (final [AAdd X; AIsSat Y]) = [1; 0].
+Proof. repeat split; reflexivity. Qed.
 
 (* ====================================================================== *)
 (* D. Shortcuts return the corresponding truth                             *)
